@@ -4,7 +4,7 @@
 //        wave = comma separated behaviours, one request each, all requests of a wave issued at once; request i asks
 //        for /<i>/<behaviour> and the server answers with body "resp-<i>":
 //          a at once, d after 60 ms, b byte-dribbled, c chunked, x with Connection: close and then closes,
-//          n never, l late (time-out + 300 ms), e delayed 250 ms (used in wave 2 to be in flight when a late response arrives)
+//          n never, h half an answer and then nothing, l late (time-out + 300 ms), e delayed 250 ms (used in wave 2 to be in flight when a late response arrives)
 //        wave 2 is issued <gap ms> (default time-out + 100 ms) after wave 1
 //     -> K r=<outcome per request: F<i of the body received> | R rejected | P still pending> twice=<promises settled twice>
 //            accepted=<connections the server accepted in total> limit=<configured connections per host>
@@ -146,6 +146,12 @@ struct Server
                 ::shutdown(c, SHUT_RDWR);
                 return;
             case 'n':
+                while (!stop && !gone)
+                    nap(50);
+                return;
+            case 'h':
+                // half of the answer, then nothing more: the client's time-out interrupts a partially received response
+                pv::send_all(c, plain.substr(0, plain.size() / 2));
                 while (!stop && !gone)
                     nap(50);
                 return;
